@@ -15,7 +15,7 @@ import (
 
 // C19: mDNS via Avahi survives daemon restarts without stale or lost announcements.
 
-var Events = []string{"down", "up", "tick", "ann1", "ann2", "unann", "browse", "shutdown", "restart"}
+var Events = []string{"down", "dbusup", "up", "tick", "ann1", "ann2", "unann", "browse", "shutdown", "restart"}
 
 type c19world struct {
 	d        *fakeavahi.Daemon
@@ -37,6 +37,8 @@ func (w *c19world) apply(ev string) {
 	switch ev {
 	case "down":
 		w.d.Disconnect()
+	case "dbusup":
+		w.d.DBusOnly()
 	case "up":
 		w.d.Up()
 	case "tick":
@@ -170,12 +172,15 @@ func Build() func(hist []string) hx.GView {
 			if w.shut && (e == "ann1" || e == "ann2" || e == "unann") {
 				continue
 			}
-			if e == "up" && w.d.AvahiUp || e == "down" && !w.d.AvahiUp {
+			if e == "up" && w.d.AvahiUp || e == "down" && !w.d.AvahiUp && !w.d.DBusUp {
+				continue
+			}
+			if e == "dbusup" && (w.d.DBusUp || w.d.AvahiUp) {
 				continue
 			}
 			en = append(en, e)
 		}
-		key := fmt.Sprintf("%s|up=%v|want=%s|shut=%v|lb=%d|lg=%d|lis=%d|setups>%v|tm=%d|nb=%d|rs=%d", c19snap.Snap(w.p), w.d.AvahiUp, w.want, w.shutReturned, w.d.LiveBrowsers(), len(w.d.LiveGroups()), w.listeners(),
+		key := fmt.Sprintf("%s|dbus=%v|up=%v|want=%s|shut=%v|lb=%d|lg=%d|lis=%d|setups>%v|tm=%d|nb=%d|rs=%d", c19snap.Snap(w.p), w.d.DBusUp, w.d.AvahiUp, w.want, w.shutReturned, w.d.LiveBrowsers(), len(w.d.LiveGroups()), w.listeners(),
 			w.shutReturned && w.d.Setups != w.setupsAtShutdown, len(simrt.Timers()), min(w.nBrowse, 2), w.restarts)
 		obs := strings.Join(w.d.Log, ",")
 		// probe (the state key is taken, successors are built by replay): in every state with a reachable daemon and a
@@ -223,6 +228,16 @@ func RaceBody(kind string) func() {
 			simrt.RunFor(500 * time.Millisecond)
 			simrt.Go("user-shutdown", func() { w.p.Shutdown(); shutDone = true })
 			simrt.Go("daemon-back", func() { w.d.Up() })
+		case "shutdown-at-retry-wakeup":
+			// the user's Shutdown becomes runnable at the very instant the retry wait of the reconnect loop ends
+			w.d.Disconnect()
+			w.d.Up()
+			t0 := simrt.Elapsed()
+			simrt.Go("user-shutdown", func() {
+				simrt.Block("retry-wait-over", func() bool { return simrt.Elapsed() >= t0+time.Second })
+				w.p.Shutdown()
+				shutDone = true
+			})
 		case "announce-vs-reconnect":
 			w.d.Disconnect()
 			w.d.Up()
